@@ -61,7 +61,9 @@ s {
 TYPES = ["int", "float", "ints", "floats", "bool", "str", "qstr", "path", "key", "words", "strings", "choice",
          "choice(multi=True)", "int(value_min=0, value_max=10)", "float(value_max=1e3)", "ints(size=2)",
          "floats(size_min=1, size_max=2)", "int(allow_none=False)", "ints(allow_none_elements=True, allow_auto_elements=True)",
-         "floats(value_min=-1, value_max=1)", None]
+         "floats(value_min=-1, value_max=1)", "ints(value_min=0, allow_none_elements=True, allow_auto_elements=True)",
+         "floats(value_max=5, allow_none_elements=True)", "floats(value_min=0, value_max=9, size_max=3, allow_auto_elements=True)",
+         None]
 VALUES = ["1", "-1", "1.5", "inf", "-inf", "nan", "1e999", "-1e999", "10**400", "1e400", "1/0", "1//0", "0/0", "()", "[]", "[ ]",
           "(", ")", "[", "]", "(1", "1)", "((1))", "[(1,2)]", "1,2", "1;2", "1 , 2", ",", ";", "+", "-", "*", "/", "**", "1+", "+1",
           "1 2 3", "1 2 3 4", "None", "none", "Auto", "auto", "True", "true", "False", "yes", "no", "x", "*x", "*y", "x+y", "x+",
